@@ -10,7 +10,7 @@ CONSTANTS
   MaxParts = 2
   MaxOps = 1
   ContentSel = {4, 6}
-  ProfileSel = {1, 4}
+  ProfileSel = {1}
   UseJson = FALSE
   BoundarySel = {1}
   PreSel = {1}
